@@ -103,7 +103,7 @@ func init() {
 		Run: func(c *Ctx) {
 			defer cleanupTemp()
 			n := c.N(500, 20000)
-			sources := []string{"", "seeker", "fs", "iofs", "tpl"}
+			sources := []string{"", "seeker", "fs", "iofs", "tpl", "flaky"}
 			for i := 0; i < n; i++ {
 				r := c.Rng
 				spc := genSpec(r, genOpts{maxParts: 2, maxFiles: 3, noFails: true, smallContent: true})
@@ -115,8 +115,26 @@ func init() {
 						// templates carry text: keep the content valid UTF-8 free of template actions
 						spc.Files[j].Content = []byte(strings.ToValidUTF8(strings.ReplaceAll(string(spc.Files[j].Content), "{{", "{ {"), "?"))
 					}
+					if spc.Files[j].Source == "flaky" {
+						if len(spc.Files[j].Content) == 0 {
+							spc.Files[j].Source = "seeker"
+						} else {
+							spc.Files[j].FlakyAt = r.Intn(len(spc.Files[j].Content))
+						}
+					}
 					if spc.Files[j].Source != "" || spc.Files[j].Enc != "" {
 						nontrivial = true
+					}
+				}
+				// sources that fail once: the first render fails (source error), every later one must be complete
+				// (one such source per message: the render stops at the first failure, later sources are not read)
+				flaky := false
+				for j := range spc.Files {
+					if spc.Files[j].Source == "flaky" {
+						if flaky {
+							spc.Files[j].Source = "seeker"
+						}
+						flaky = true
 					}
 				}
 				m, ops, err := spc.Build()
@@ -146,6 +164,9 @@ func init() {
 					if h == 0 && path == "fail" && r.Chance(50) {
 						path = "WriteTo"
 					}
+					if flaky && h == 0 {
+						path = "WriteTo"
+					}
 					failAt := 0
 					if path == "fail" {
 						nontrivial = true
@@ -159,6 +180,30 @@ func init() {
 					out, err, line := renderVia(m, path, failAt)
 					c.rep.OracleChecked++
 					in := map[string]interface{}{"spec": spc, "history": history, "fail_at": failAt}
+					if flaky && h == 0 {
+						// the render during which the sources fail
+						ops = append(ops, line)
+						wants = append(wants, encB(out)+" "+encN(len(out))+" "+encBool(err != nil))
+						if err == nil {
+							c.Violate("c12-silent-success", "a source failed while rendering but WriteTo returned no error", in)
+						}
+						// from now on the sources deliver everything
+						na, ne := 0, 0
+						for j := range spc.Files {
+							f := &spc.Files[j]
+							idx := ne
+							if f.Attach {
+								idx = na
+								na++
+							} else {
+								ne++
+							}
+							if f.Source == "flaky" {
+								ops = append(ops, "fileprod", encBool(f.Attach), encN(idx), encB(f.Content))
+							}
+						}
+						continue
+					}
 					if path == "fail" {
 						// model op with limit; compare accepted bytes / count / error
 						ops = append(ops, line)
